@@ -48,7 +48,7 @@ class LifecycleRun:
 
         fam = [s for s in self.names if s in HEX32]
         shadowed = self.default in fam[1:]  # its hashes are read as an earlier scheme's: the dummy hash is verified by that one
-        self.countable = (self.default != self.disabled and not self.default.startswith("ldap_md5_crypt") and not shadowed
+        self.countable = (self.default != self.disabled and isinstance(getattr(passlib.hash, self.default), type) and not shadowed
                           and self.default not in ("plaintext", "ldap_plaintext"))
         if self.countable:
             objs = [make_counting(getattr(passlib.hash, s), self.counter) if s == self.default else s for s in self.names]
